@@ -468,6 +468,17 @@ func RunClient(t *testing.T, sc CScenario) (h *CHistory) {
 					}
 				}
 				w.log(CEvent{Kind: "oncb-exit", ID: id, K: int(n), Err: errStr(ctx.Err())})
+				var num int
+				fmt.Sscanf(strings.TrimLeft(id, "cb"), "%d", &num)
+				switch {
+				case num%4 == 2:
+					// an *Error whose Data are not valid JSON
+					return nil, &jrpc2.Error{Code: 7, Message: "callback error " + id, Data: json.RawMessage(`{"cb":`)}
+				case num%4 == 0:
+					return make(chan int), nil // cannot be marshalled
+				case num%8 == 5:
+					return nil, jrpc2.Errorf(7, "callback error %s", id)
+				}
 				return map[string]string{"cb": id}, nil
 			},
 			OnCancel: func(cli *jrpc2.Client, rsp *jrpc2.Response) {
